@@ -530,3 +530,4 @@ K9_QUICK = {
 for _u in UNITS:
     for _h in _u["kani"]["harnesses"]:
         _h["tier"] = "quick" if _h["name"] in K9_QUICK else "thorough"
+        _h["mem"] = "mid"        # 1 - 3 GB of kani-driver memory per harness, not released within one invocation (measured): batches of 8 in the thorough tier
